@@ -74,10 +74,19 @@ def generate(seed: int, tier: str, idx: int) -> dict:
         return {"plan": {"kind": "utility", "seed": s.randint(0, 2**31)}}
     sc = gen.gen_scenario(seed, PROFILE)
     sc["release"]["use_lonlat"] = s.chance(0.8)
+    if s.chance(0.4):
+        # one row exactly in the middle of the loaded array (where an iterative solver would start), the others elsewhere
+        i0, i1, j0, j1 = truth.subgrid(sc)
+        xc, yc = i0 + 0.5 * (i1 - i0), j0 + 0.5 * (j1 - j0)
+        m = truth.mask_rho(sc)
+        if m[int(round(yc)), int(round(xc))] and m[int(np.floor(yc)), int(np.floor(xc))] and m[int(np.ceil(yc)), int(np.ceil(xc))]:
+            r0 = sc["release"]["rows"][s.randint(0, len(sc["release"]["rows"]) - 1)]
+            r0["X"], r0["Y"] = float(xc), float(yc)
+            sc["plan_centre"] = True
     for r in sc["release"]["rows"]:
         lon, lat = xy_to_lonlat(sc, np.array([r["X"]]), np.array([r["Y"]]))
         r["lon"], r["lat"] = float(lon[0]), float(lat[0])
-    sc["plan"] = {"kind": "run", "probe_seed": s.randint(0, 2**31)}
+    sc["plan"] = {"kind": "run", "probe_seed": s.randint(0, 2**31), "centre_row": bool(sc.pop("plan_centre", False))}
     return sc
 
 
@@ -110,6 +119,13 @@ def execute_run(sc) -> Result:
         s = stream(sc["plan"]["probe_seed"], "probe")
         X = np.array([s.uniform(xlo, xhi) for _ in range(24)])
         Y = np.array([s.uniform(ylo, yhi) for _ in range(24)])
+        # ... and exact rho points, among them the middle of the loaded array
+        i0, i1, j0, j1 = truth.subgrid(sc)
+        px = [i0 + 0.5 * (i1 - i0)] + [float(s.randint(int(np.ceil(xlo)), int(np.floor(xhi)))) for _ in range(3)]
+        py = [j0 + 0.5 * (j1 - j0)] + [float(s.randint(int(np.ceil(ylo)), int(np.floor(yhi)))) for _ in range(3)]
+        k = s.randint(0, 24)
+        X = np.concatenate([X[:k], px, X[k:]])
+        Y = np.concatenate([Y[:k], py, Y[k:]])
         lon, lat = grid.xy2ll(X.copy(), Y.copy())
         X2, Y2 = grid.ll2xy(np.array(lon, dtype=float), np.array(lat, dtype=float))
         store["rt"] = (X, Y, np.asarray(lon, float), np.asarray(lat, float), np.asarray(X2, float), np.asarray(Y2, float))
@@ -144,6 +160,8 @@ def execute_run(sc) -> Result:
                 res.add(Violation("C16.roundtrip", None, f"ll2xy(xy2ll({X[q]:.4f},{Y[q]:.4f}))",
                                   f"({X2[q]:.6f},{Y2[q]:.6f}) residual {resid[q]:.3g} deg^2", "residual < 1e-7 deg^2"))
             res.probes["roundtrip"] += 1
+            if sc["plan"].get("centre_row") and sc["release"].get("use_lonlat"):
+                res.probes["release_row_in_the_middle_of_the_array"] += 1
         # ---- released positions
         if sc["release"].get("use_lonlat"):
             pre, post = run.rec.snap_by_step("release.pre"), run.rec.snap_by_step("release.post")
